@@ -24,6 +24,11 @@ def subResume : EinoV.C11.ResumeFacts :=
     resume).  NOT tied by `facts_match`: on a tree where the extracted fact is `false` the
     harness reports the finding `C11:resume:stateless-nested-state-copy`. -/
 def cpSavesOwnStateOnly : Bool := true
+/-- `setNodeKey` builds the path of a child node in a backing array of its own: the value the
+    property needs (sibling graphs keep distinct node paths, so the caller's modifier is told
+    the right path on resume).  NOT tied by `facts_match`: on a tree where the extracted fact
+    is `false` the harness reports the finding `C11:paths:modifier-path`. -/
+def nodePathFresh : Bool := true
 /-- `internalState{…}` literals in package compose: `runCtx` + one per resume branch -/
 def holderAllocSites : Nat := 3
 end EinoV.Expected.C11
